@@ -53,6 +53,12 @@ class PriorityCheck:
             rng = random.Random(seed_int("c13", spec["seed"], spec["shard"], idx))
             pname = rng.choice(list(policies))
             now = rng.choice([0, 5, 10, 37])
+            # a quarter of the instances live on a millisecond scale with release times and deadlines given partly in ms and
+            # partly in us (time values are exact whatever their unit: the priority order must not depend on it)
+            mixed_units = rng.random() < 0.25
+            if mixed_units:
+                now = rng.choice([4000, 9000, 12500])
+                bump("invocations_with_mixed_units")
             types = ["CPU", "GPU"][:rng.randint(1, 2)]
             npools = rng.randint(1, 4)
             pools, caps = [], []
@@ -136,9 +142,16 @@ class PriorityCheck:
                 rel = rng.choice([0, 0, 1, 2, 3]) if tied else rng.randint(0, now)
                 rel = min(rel, now)
                 dl = now + (rng.choice([5, 10, 10, 20]) if tied else rng.randint(1, 60))
-                t = wl.Task(name=f"t{k}", task_graph=f"g{k}", job=job, deadline=EventTime(dl, US),
-                            timestamp=0, release_time=EventTime(rel, US), _logger=lg)
-                t.release(EventTime(rel, US))
+                rel_t, dl_t = EventTime(rel, US), EventTime(dl, US)
+                if mixed_units:
+                    rel = rng.choice([1000, 2000, 3000, 1500, 2500, 3500, 900, 2999]) if not tied else rng.choice([2000, 2000, 3000, 2500])
+                    dl = now + rng.choice([1000, 2000, 5000, 1500, 700, 2500, 10000])
+                    MS = EventTime.Unit.MS
+                    rel_t = EventTime(rel // 1000, MS) if (rel % 1000 == 0 and rng.random() < 0.7) else EventTime(rel, US)
+                    dl_t = EventTime(dl // 1000, MS) if (dl % 1000 == 0 and rng.random() < 0.7) else EventTime(dl, US)
+                t = wl.Task(name=f"t{k}", task_graph=f"g{k}", job=job, deadline=dl_t,
+                            timestamp=0, release_time=rel_t, _logger=lg)
+                t.release(rel_t)
                 tasks.append(t)
                 specs.append({"rel": rel, "deadline": dl, "strategies": sspec})
                 graphs[f"g{k}"] = wl.TaskGraph(name=f"g{k}", tasks={t: []})
@@ -236,6 +249,8 @@ class PriorityCheck:
             inconclusive.append(f"only {tot.get('invocations_with_unplaced', 0)} invocations with an unplaced task")
         if tot.get("invocations_with_ties", 0) < 100:
             inconclusive.append("too few invocations with priority ties")
+        if tot.get("invocations_with_mixed_units", 0) < (500 if tier == "quick" else 10000):
+            inconclusive.append(f"only {tot.get('invocations_with_mixed_units', 0)} invocations with mixed time units")
         if tot.get("unplaced_judged_on_multi_worker_pool", 0) < (300 if tier == "quick" else 5000):
             inconclusive.append(f"only {tot.get('unplaced_judged_on_multi_worker_pool', 0)} unplaced tasks judged against a two-worker pool")
         for p in ("EDF", "FIFO", "LSF"):
